@@ -255,4 +255,13 @@ theorem read_seq (ops : List WOp) (hwf : ∀ a ∈ ops, a.Wf) (r : Reader) (rest
       rw [ih']
       cases runOrder l (as.map WOp.hdr) <;> simp
 
+/-- among the writers' accepted operations only `WriteContinuation` produces type 9. -/
+theorem typ_continuation_iff (a : WOp) (h : a.Wf) :
+    a.typ = tContinuation ↔ ∃ sid eh f, a = .continuation sid eh f := by
+  cases a <;> simp [WOp.typ, tData, tHeaders, tPriority, tRSTStream, tSettings, tPushPromise, tPing,
+    tGoAway, tWindowUpdate, tContinuation]
+  case raw t fl sid p =>
+    have := h.1
+    omega
+
 end Req.Lemmas.C05.Seq
